@@ -7,6 +7,7 @@ input file, for every accepted session and every way the reader splits the input
 -/
 import Earverif.Props.C04
 import Earverif.Props.C02
+import Earverif.Props.C18
 
 namespace Earverif.FileRender
 open Earverif.Renderer
@@ -37,5 +38,215 @@ theorem file_frames_eq_input {n : Nat} (c : Cfg (Earverif.Stream.Frame n))
     simp only [List.mem_map] at hfr
     obtain ⟨r, -, rfl⟩ := hfr
     simp [rowList, hn]
+
+/-! ### The block loop: `iter_sample_blocks(blocksize)` (C18) → `render` per block → `get_tail` (C02) → glue (C04) -/
+
+end Earverif.FileRender
+
+namespace Earverif.FileRenderLayout
+open Earverif.FileRender Earverif.Cursor
+
+theorem chain_le : ∀ (rs : List (Int × Int)) (c e : Int), Chain c rs e → c ≤ e := by
+  intro rs
+  induction rs with
+  | nil => intro c e h; simp [Chain] at h; omega
+  | cons r rs ih =>
+    intro c e h
+    obtain ⟨_, h2, h3⟩ := h
+    have := ih _ _ h3
+    omega
+
+theorem chain_mem : ∀ (rs : List (Int × Int)) (c e : Int), Chain c rs e →
+    ∀ r ∈ rs, c ≤ r.1 ∧ 0 < r.2 ∧ r.1 + r.2 ≤ e := by
+  intro rs
+  induction rs with
+  | nil => intro c e _ r hr; simp at hr
+  | cons r0 rs ih =>
+    intro c e h r hr
+    obtain ⟨h1, h2, h3⟩ := h
+    rcases List.mem_cons.mp hr with rfl | hr
+    · have := chain_le _ _ _ h3
+      exact ⟨by omega, h2, by omega⟩
+    · have := ih _ _ h3 r hr
+      exact ⟨by omega, this.2.1, this.2.2⟩
+
+theorem chain_flatten {α : Type} (input : List α) : ∀ (rs : List (Int × Int)) (c e : Int), 0 ≤ c → Chain c rs e →
+    (rs.map fun r => (input.drop r.1.toNat).take r.2.toNat).flatten = (input.drop c.toNat).take (e - c).toNat := by
+  intro rs
+  induction rs with
+  | nil => intro c e _ h; simp [Chain] at h; subst h; simp
+  | cons r rs ih =>
+    intro c e hc h
+    obtain ⟨h1, h2, h3⟩ := h
+    have hle := chain_le _ _ _ h3
+    rw [List.map_cons, List.flatten_cons, ih (c + r.2) e (by omega) h3, h1]
+    have e1 : (c + r.2).toNat = c.toNat + r.2.toNat := by omega
+    have e2 : (e - c).toNat = r.2.toNat + (e - (c + r.2)).toNat := by omega
+    rw [e1, e2, List.take_add, List.drop_drop]
+
+/-- **The blocks of `iter_sample_blocks(blocksize)` tile the file** (from C18's `specIter_tiles`): for
+`blocksize ≥ 1` their concatenation is the input, none is empty, none is longer than `blocksize`. -/
+theorem fileParts_spec {α : Type} (bs : Nat) (hbs : 1 ≤ bs) (input : List α) :
+    (fileParts bs input).flatten = input ∧ ∀ p ∈ fileParts bs input, p ≠ [] ∧ p.length ≤ bs := by
+  have ht := specIter_tiles (input.length : Int) (bs : Int) (by omega) (input.length + 1) 0 (by omega) (by omega)
+    (by omega)
+  obtain ⟨_, hchain, hsz⟩ := ht
+  constructor
+  · unfold fileParts
+    rw [chain_flatten input _ 0 _ (by omega) hchain]
+    simp
+  · intro p hp
+    unfold fileParts at hp
+    rw [List.mem_map] at hp
+    obtain ⟨r, hr, rfl⟩ := hp
+    have hm := chain_mem _ _ _ hchain r hr
+    have hs := hsz r hr
+    constructor
+    · intro hnil
+      have : ((input.drop r.1.toNat).take r.2.toNat).length = 0 := by rw [hnil]; rfl
+      rw [List.length_take, List.length_drop] at this
+      omega
+    · rw [List.length_take]
+      omega
+
+/-- One `render` call per block, then exactly one `get_tail` call. -/
+theorem renderCalls_length {S E : Type} (render : S → List (List Rat) → Except E (S × List (List Rat)))
+    (getTail : S → Except E (List (List Rat))) : ∀ (parts : List (List (List Rat))) (st : S) (outs : List (List (List Rat))),
+    renderCalls render getTail st parts = .ok outs → outs.length = parts.length + 1 := by
+  intro parts
+  induction parts with
+  | nil =>
+    intro st outs h
+    simp only [renderCalls] at h
+    split at h
+    · cases h
+    · cases h; rfl
+  | cons b bs ih =>
+    intro st outs h
+    simp only [renderCalls] at h
+    split at h
+    · cases h
+    · split at h
+      · cases h
+      · rename_i os hos
+        cases h
+        simp [ih _ _ hos]
+
+/-! Non-vacuity of `fileParts_spec`: a length that is not a multiple of the block size, an exact multiple (no
+empty trailing block), the empty file (no block at all: only `get_tail` is called). -/
+example : fileParts 4 [0, 1, 2, 3, 4, 5, 6, 7, 8, 9] = [[0, 1, 2, 3], [4, 5, 6, 7], [8, 9]] := by decide +kernel
+example : fileParts 2 [0, 1, 2, 3] = [[0, 1], [2, 3]] := by decide +kernel
+example : fileParts 8192 ([] : List Nat) = [] := by decide +kernel
+
+end Earverif.FileRenderLayout
+
+namespace Earverif.FileRender
+open Earverif.Renderer Earverif.FileRenderLayout
+
+/-- `renderer.render(...)` of the C02/C03 renderer model as an entry point of `renderCalls`. -/
+def mRender {n : Nat} (c : Cfg (Earverif.Stream.Frame n)) (st : RState (Earverif.Stream.Frame n))
+    (b : List (List Rat)) : Except Earverif.Timeline.Err (RState (Earverif.Stream.Frame n) × List (List Rat)) :=
+  match st.render c b with
+  | .error e => .error e
+  | .ok (st', o) => .ok (st', o.map rowList)
+
+/-- `renderer.get_tail(...)`. -/
+def mTail {n : Nat} (c : Cfg (Earverif.Stream.Frame n)) (st : RState (Earverif.Stream.Frame n)) :
+    Except Earverif.Timeline.Err (List (List Rat)) :=
+  match st.get_tail c with
+  | .error e => .error e
+  | .ok (_, t) => .ok (t.map rowList)
+
+theorem renderCalls_run {n : Nat} (c : Cfg (Earverif.Stream.Frame n)) :
+    ∀ (parts : List (List (List Rat))) (st st' st'' : RState (Earverif.Stream.Frame n))
+      (os : List (List (Earverif.Stream.Frame n))) (tail : List (Earverif.Stream.Frame n)),
+    RState.run c st parts = .ok (st', os) → st'.get_tail c = .ok (st'', tail) →
+    renderCalls (mRender c) (mTail c) st parts = .ok (os.map (·.map rowList) ++ [tail.map rowList]) := by
+  intro parts
+  induction parts with
+  | nil =>
+    intro st st' st'' os tail h1 h2
+    simp only [RState.run, pure, Except.pure] at h1
+    cases h1
+    simp [renderCalls, mTail, h2]
+  | cons b bs ih =>
+    intro st st' st'' os tail h1 h2
+    simp only [RState.run, bind, Except.bind] at h1
+    cases hr : st.render c b with
+    | error e => rw [hr] at h1; cases h1
+    | ok r =>
+      obtain ⟨st1, o⟩ := r
+      rw [hr] at h1
+      simp only at h1
+      cases hrun : RState.run c st1 bs with
+      | error e => rw [hrun] at h1; cases h1
+      | ok r2 =>
+        obtain ⟨st2, os2⟩ := r2
+        rw [hrun] at h1
+        simp only [pure, Except.pure] at h1
+        cases h1
+        have := ih st1 st' st'' os2 tail hrun h2
+        simp [renderCalls, mRender, hr, this]
+
+theorem renderAll_parts {n : Nat} (c : Cfg (Earverif.Stream.Frame n)) (objs dss hoas)
+    (parts : List (List (List Rat))) (out : List (Earverif.Stream.Frame n))
+    (h : renderAll c objs dss hoas parts = .ok out) :
+    ∃ st os st'' tail, RState.run c (RState.init c objs dss hoas) parts = .ok (st, os) ∧
+      st.get_tail c = .ok (st'', tail) ∧ out = os.flatten ++ tail := by
+  simp only [renderAll, bind, Except.bind] at h
+  cases hrun : RState.run c (RState.init c objs dss hoas) parts with
+  | error e => rw [hrun] at h; cases h
+  | ok r =>
+    obtain ⟨st, os⟩ := r
+    rw [hrun] at h
+    simp only at h
+    cases ht : st.get_tail c with
+    | error e => rw [ht] at h; cases h
+    | ok r2 =>
+      obtain ⟨st'', tail⟩ := r2
+      rw [ht] at h
+      simp only [pure, Except.pure] at h
+      cases h
+      exact ⟨st, os, st'', tail, rfl, ht, rfl⟩
+
+/-- **File in, file out: frames out = frames in, through the real call sequence.** For every accepted session
+(`SessionOK`), every input file content `input` and every block size `≥ 1` (8192 in `OfflineRenderDriver`):
+reading the file with `iter_sample_blocks(blocksize)` (C18's specification), calling `render` once per block
+and `get_tail` once at the end (C02/C03's renderer model), scaling, upmixing, monitoring and writing each
+returned block (`FileRender.run`) succeeds and writes exactly `input.length` frames of `nChannels` samples each. -/
+theorem file_render_blocks_frames {n : Nat} (c : Cfg (Earverif.Stream.Frame n))
+    (objs : List (ObjItem (Earverif.Stream.Frame n))) (dss : List (DsItem (Earverif.Stream.Frame n)))
+    (hoas : List (HoaItem (Earverif.Stream.Frame n)))
+    (hok : SessionOK c objs dss hoas) (input : List (List Rat)) (blocksize : Nat) (hbs : 1 ≤ blocksize)
+    (chans : List String) (hn : chans.length = n) (speakers gain f M) :
+    ∃ res, runFile (mRender c) (mTail c) (RState.init c objs dss hoas) blocksize chans speakers gain f M input
+        = .ok res ∧
+      res.frames.length = input.length ∧ res.nChannels = nChannels chans speakers ∧
+      ∀ fr ∈ res.frames, fr.length = res.nChannels := by
+  obtain ⟨out, hout, hlen, -⟩ := C02_length_and_origin c objs dss hoas hok (fileParts blocksize input)
+  obtain ⟨st, os, st'', tail, hrun, htail, rfl⟩ := renderAll_parts c objs dss hoas _ out hout
+  have hcalls := renderCalls_run c _ _ _ _ _ _ hrun htail
+  refine ⟨run chans speakers gain f M (List.map (fun x => List.map rowList x) os ++ [List.map rowList tail]),
+    by simp only [runFile, hcalls], ?_, rfl, ?_⟩
+  · rw [run_frame_count]
+    rw [(fileParts_spec blocksize hbs input).1] at hlen
+    rw [← hlen]
+    simp only [List.map_append, List.map_map, List.sum_append, List.length_append, List.length_flatten]
+    simp [Function.comp_def]
+  · apply run_channel_count
+    intro b hb fr hfr
+    have hrow : ∀ (l : List (Earverif.Stream.Frame n)), ∀ fr ∈ l.map rowList, fr.length = chans.length := by
+      intro l fr hfr
+      rw [List.mem_map] at hfr
+      obtain ⟨r, -, rfl⟩ := hfr
+      simp [rowList, hn]
+    rw [List.mem_append] at hb
+    rcases hb with hb | hb
+    · rw [List.mem_map] at hb
+      obtain ⟨l, -, rfl⟩ := hb
+      exact hrow l fr hfr
+    · rw [List.mem_singleton] at hb
+      subst hb
+      exact hrow tail fr hfr
 
 end Earverif.FileRender
